@@ -201,25 +201,32 @@ theorem mink_normalizeVec_both (r : K → K) (x v : Fin (n + 1) → K) :
       = nfac r (minkJ n) v * nfac r (minkJ n) x * mink v x := by
   rw [← bil_minkJ, bil_normalizeVec, bil_minkJ]
 
-/-- `Point.origin_to`: the one-row frame `[x̂]` -/
+theorem sheet_normalizeVec_timelike {r : K → K} (hr : IsSqrt r) (x : Fin (n + 1) → K) (hx : mink x x < 0) :
+    mink (sheetSign (normalizeVec r (minkJ n) x) • normalizeVec r (minkJ n) x)
+      (sheetSign (normalizeVec r (minkJ n) x) • normalizeVec r (minkJ n) x) < 0 := by
+  rw [mink_sheet_smul _ (sheetSign_mul_self _)]; exact normalizeVec_timelike hr x hx
+
+/-- `Point.origin_to`: the one-row frame `[σ·x̂]` -/
 theorem originTo_partial {r : K → K} (hr : IsSqrt r) (x : Fin (n + 1) → K) (hx : mink x x < 0) :
-    ∀ u ∈ gs (minkJ n) [normalizeVec r (minkJ n) x], u ≠ 0 := by
+    ∀ u ∈ gs (minkJ n) [sheetSign (normalizeVec r (minkJ n) x) • normalizeVec r (minkJ n) x], u ≠ 0 := by
   intro u hu
   rw [gs_singleton] at hu
-  have : u = normalizeVec r (minkJ n) x := by simpa using hu
+  have : u = sheetSign (normalizeVec r (minkJ n) x) • normalizeVec r (minkJ n) x := by simpa using hu
   rw [this]
-  exact ne_zero_of_mink_ne_zero (normalizeVec_timelike hr x hx).ne
+  exact ne_zero_of_mink_ne_zero (sheet_normalizeVec_timelike hr x hx).ne
 
-/-- `TangentVector.origin_to`: the frame `[x̂, v̂]` for a non-zero tangent vector `v ⟂ x` -/
+/-- `TangentVector.origin_to`: the frame `[σ·x̂, σ·v̂]` for a non-zero tangent vector `v ⟂ x` -/
 theorem tangentOriginTo_partial {r : K → K} (hr : IsSqrt r) (x v : Fin (n + 1) → K) (hx : mink x x < 0)
     (hv : v ≠ 0) (hxv : mink v x = 0) :
-    ∀ u ∈ gs (minkJ n) [normalizeVec r (minkJ n) x, normalizeVec r (minkJ n) v], u ≠ 0 := by
-  rw [gs_pair_orth _ _ (by rw [mink_normalizeVec_both, hxv, mul_zero])]
+    ∀ u ∈ gs (minkJ n) [sheetSign (normalizeVec r (minkJ n) x) • normalizeVec r (minkJ n) x,
+      sheetSign (normalizeVec r (minkJ n) x) • normalizeVec r (minkJ n) v], u ≠ 0 := by
+  rw [gs_pair_orth _ _ (by
+    rw [mink_sheet_smul _ (sheetSign_mul_self _), mink_normalizeVec_both, hxv, mul_zero])]
   intro u hu
   rcases List.mem_cons.1 hu with rfl | hu
-  · exact ne_zero_of_mink_ne_zero (normalizeVec_timelike hr x hx).ne
-  · have : u = normalizeVec r (minkJ n) v := by simpa using hu
-    rw [this]; exact normalizeVec_ne_zero hr v hv
+  · exact ne_zero_of_mink_ne_zero (sheet_normalizeVec_timelike hr x hx).ne
+  · have : u = sheetSign (normalizeVec r (minkJ n) x) • normalizeVec r (minkJ n) v := by simpa using hu
+    rw [this]; exact smul_ne_zero (sheetSign_ne_zero _) (normalizeVec_ne_zero hr v hv)
 
 /-- (repaired) `spacelike_to`: the frame `[t, v̂]` with `t = e₀ − projection(e₀, v̂)` for spacelike `v` -/
 theorem spacelikeFrame_partial {r : K → K} (hr : IsSqrt r) (v : Fin (n + 1) → K) (hv : 0 < mink v v) :
